@@ -170,6 +170,36 @@ fn check_state(
 			return false;
 		}
 	}
+	// a directed probe of the rarest class: inputs that ARE unspent here, with an output that re-creates a commitment
+	// that is unspent here (the output, proof included, as the block that created it carried it)
+	{
+		let dup = h
+			.blocks
+			.iter()
+			.filter(|x| x.verdict.is_ok())
+			.flat_map(|x| x.block.outputs().iter().cloned().collect::<Vec<_>>())
+			.find(|o| !o.is_coinbase() && st.utxo.contains_key(&o.commitment()));
+		let spendable = coins
+			.iter()
+			.find(|c| !c.coinbase && st.utxo.get(&c.commit).map(|&i| st.outs[i].features == c.features()).unwrap_or(false) && dup.as_ref().map(|o| o.commitment() != c.commit).unwrap_or(false));
+		let kern = h.blocks.iter().flat_map(|x| x.block.kernels().iter().cloned().collect::<Vec<_>>()).find(|k| matches!(k.features, grin_core::core::KernelFeatures::Plain { .. }));
+		if let (Some(o), Some(c), Some(k)) = (dup, spendable, kern) {
+			let ident = OutputIdentifier::new(c.features(), &c.commit);
+			let inputs: Inputs = (&[ident][..]).into();
+			let tx = grin_core::core::Transaction::new(inputs, &[o], &[k]);
+			let got = chain.validate_tx(&tx).is_ok();
+			out.probes += 1;
+			run.count("validate_tx_probes.output_duplicates_unspent", 1);
+			if got {
+				run.violation(
+					&format!("C02;{};validate_tx_probe;node=true;ref=false;inputs_unspent=true;outputs_fresh=false", ctx),
+					&format!("validate_tx accepts a transaction whose output {:?} re-creates a commitment that is unspent in the replayed state", tx.outputs()[0].commitment()),
+					replay.clone(),
+				);
+				return false;
+			}
+		}
+	}
 	true
 }
 
